@@ -356,6 +356,8 @@ pub fn run(ctx: &'static Ctx) -> (&'static str, Value, Vec<&'static str>) {
 
     // chunks wrap the same containers
     let mut s2 = Stats::new();
+    // (the real-time Chunk type lives in the aws module: absent from the `dec` build configuration)
+    #[cfg(feature = "full")]
     for (i, r) in reduced.iter().filter(|r| r.bz).enumerate() {
         use nexrad_data::aws::realtime::Chunk;
         let p = payload(r.content, r.size);
